@@ -40,7 +40,7 @@ func shortenKey(key string) string {
 }
 
 func (p *Prog) newEntryState(e *Enc) *State {
-	st := &State{reach: True, cells: map[*ssa.Alloc]Val{}, heaps: map[string]Val{}, iters: map[ssa.Value]Val{}}
+	st := &State{reach: True, cells: map[*ssa.Alloc]Val{}, heaps: map[string]Val{}, iters: map[ssa.Value]Val{}, lazy: map[string]bool{}}
 	st.next = e.declare("next_0", SInt)
 	e.fact(Val{app("<=", fmt.Sprint(firstDynamicRef), "next_0"), SBool})
 	return st
@@ -194,6 +194,22 @@ func (p *Prog) VerifyFunction(fn *ssa.Function, fc *FuncContract, split *int, wa
 			}
 		}
 	}
+	if fc != nil {
+		for _, pe := range fc.Preserves {
+			ec := &EvalCtx{e: e, st: st, old: fr.oldSt, bind: pbind, spec: fc.Spec}
+			t, err := ec.evalModTarget(pe)
+			if err != nil {
+				e.failed = fmt.Errorf("%s:%d: preserves: %v", fc.File, fc.Line, err)
+				return e
+			}
+			if t.kind != "loc" && t.kind != "elems" {
+				e.failed = fmt.Errorf("%s:%d: preserves: only *p, x.f and elems(s) are supported", fc.File, fc.Line)
+				return e
+			}
+			e.preserved = append(e.preserved, t)
+			e.assumedUsed["preserves clause of "+e.Unit+": callees with an unbounded frame cannot reach "+specString(pe)] = true
+		}
+	}
 	if wantCover {
 		o := e.oblig(st, "cover", "requires-satisfiable", True, fn.Pos(), nil, nil)
 		o.IsCover = true
@@ -230,7 +246,7 @@ func (p *Prog) VerifyFunction(fn *ssa.Function, fc *FuncContract, split *int, wa
 			e.oblig(r.st, "post", lab+"@"+rlabel, c, r.instr.Pos(), cl.Tags, cl)
 			return true
 		}
-		if fc != nil {
+		if fc != nil && !fc.TrustedPost {
 			for i, en := range fc.Ensures {
 				if !check(en, i, pbind, fn.Signature, fc.Spec, "") {
 					return e
@@ -259,7 +275,7 @@ func (p *Prog) VerifyFunction(fn *ssa.Function, fc *FuncContract, split *int, wa
 			e.oblig(r.st, "lock", "balanced@"+rlabel, bal, r.instr.Pos(), nil, nil)
 		}
 		// frame
-		if fc != nil && fc.HasMod {
+		if fc != nil && fc.HasMod && !fc.TrustedPost {
 			e.frameObligations(fr, r.st, fc, pbind, rlabel, r.instr.Pos())
 			for _, tc := range tcs {
 				if tc.fc.HasMod {
